@@ -11,7 +11,8 @@ RULE = ("strings over the markup alphabet (exhaustive up to a length, then sampl
         ' ; plus: namespace-qualified attributes, percent signs, prefix-like strings (D44), Text.escape().unescape() as a path, reading the tree back after serializing, a Document serialized again after an edit'
         ' ; replies in UTF-8 / UTF-16 / ISO-8859-1 as declared; empty attribute values present in requests and trees'
         ' ; a Document whose root is a leaf; big-endian UTF-16 replies ending in a line end'
-        ' ; elements that say they are not nil; an attribute of another W3C vocabulary; strings inside a ready-made Element argument')
+        ' ; elements that say they are not nil; an attribute of another W3C vocabulary; strings inside a ready-made Element argument'
+        ' ; strings in no Unicode normal form; attributes sharing a local name')
 ASSUMPTIONS = [
     "pyexpat is the independent XML processor (trusted for XML 1.0 lexical rules)",
     "Python re.sub / str.replace behave as modelled (checked by the encode/decode correspondence)",
